@@ -455,6 +455,7 @@ def check(case, run, stats=None):
                 continue
             d = party(uid)
             d['poll'] = ev
+            d['poll_used'] = False
             d['cond'] = None
             if ev['ans'] <= 0:
                 raise harness.HarnessError('non-positive timestep generated')
@@ -486,6 +487,14 @@ def check(case, run, stats=None):
                 out.append(V('C02', 'C02.no-poll', 'plain',
                              '%s invoked without a timestep request' % uid, seq))
                 return out
+            if d.get('poll_used'):
+                # the timestep of an interval is the one requested for it: the
+                # answer to an earlier request was spent on the interval before
+                out.append(V('C02', 'C02.no-poll', 'stale-request',
+                             '%s invoked for interval %d with the timestep it requested for the '
+                             'interval before (no new request)' % (uid, ev['n']), seq))
+                return out
+            d['poll_used'] = True
             lo = d['last_end']
             hi = T if d['quiet'] else lo
             if d['quiet']:
